@@ -129,6 +129,10 @@ def gen(rng, tier):
     # passphrases that begin / end with (Unicode) white space, or are nothing else: part of the salt like any other character
     for pw in ["TREZOR ", " TREZOR", " ", "  ", "\t", "pass\n", "\r\npass", "pass\u3000", "\u00a0pass", "\u2003x\u2003", "x\u200a", "\u0085y", "\u2028z", "\x0bq\x0c"]:
         cases.append(Case("mn.seed %s %s" % (hx(" ".join(ws12)), hx(pw)), tags=("edge-whitespace",)))
+    # passphrases that look like something else to a command line: `-` (often "standard input"), `--`, an option name, @file,
+    # ~, $VAR, %s, a path, an empty-looking blank — a passphrase is text, whatever it looks like
+    for pw in ["-", "--", "-x", "--password", "-m", "@/etc/passwd", "@-", "~", "$HOME", "${PASSWORD}", "%s%n", "/dev/stdin", "\\", "''", '""', "null", "none", "0", "false"]:
+        cases.append(Case("mn.seed %s %s" % (hx(" ".join(ws12)), hx(pw)), tags=("edge-whitespace", "sentinel-like")))
     # the same (phrase, passphrase) pairs through the command line: the key exported for them must be the one derived
     # from this seed (model: Cli.exportKey; judge: BIP-39 seed + BIP-32 from the standards)
     from vlib import routes
